@@ -121,26 +121,34 @@ where
 		status_send_channel: &Option<Sender<StatusMessage>>,
 	) -> Result<(), Error> {
 		self.is_running.store(true, Ordering::Relaxed);
-		loop {
-			let wallet_opened = {
-				let mut w_lock = self.wallet_inst.lock();
-				let w_provider = w_lock.lc_provider()?;
-				w_provider.wallet_inst().is_ok()
-			};
-			// Business goes here
-			if wallet_opened {
-				owner::update_wallet_state(
-					self.wallet_inst.clone(),
-					(&keychain_mask).as_ref(),
-					status_send_channel,
-					false,
-				)?;
+		let res = (|| -> Result<(), Error> {
+			loop {
+				let wallet_opened = {
+					let mut w_lock = self.wallet_inst.lock();
+					let w_provider = w_lock.lc_provider()?;
+					w_provider.wallet_inst().is_ok()
+				};
+				// Business goes here
+				if wallet_opened {
+					owner::update_wallet_state(
+						self.wallet_inst.clone(),
+						(&keychain_mask).as_ref(),
+						status_send_channel,
+						false,
+					)?;
+				}
+				if !self.is_running.load(Ordering::Relaxed) {
+					break;
+				}
+				thread::sleep(frequency);
 			}
-			if !self.is_running.load(Ordering::Relaxed) {
-				break;
-			}
-			thread::sleep(frequency);
+			Ok(())
+		})();
+		// an updater that gives up (wrong token, wallet reopened under a new one, node error) is not
+		// running: left set, the flag makes every retrieve_* call skip its own refresh for good
+		if res.is_err() {
+			self.is_running.store(false, Ordering::Relaxed);
 		}
-		Ok(())
+		res
 	}
 }
